@@ -9,7 +9,7 @@ RULE = ("every arrival workload of <= N packets per configuration (per packet: g
         "is non-trivial when at some service decision >= 2 packets were waiting or an arrival coincided with a "
         "transmission end; distinct = distinct (workload, departure order, departure instants)")
 ASSUMPTIONS = [
-    "rates/sizes chosen so every float operation in the implementation is exact (dyadic)",
+    "rates/sizes chosen so every float operation in the implementation is exact (dyadic); one configuration per scheduler uses a non-integral rate (2.5 / 2500.5) with the reference performing the same float operations",
     "flow ids are the configured non-negative ints; SP is driven with the identity flow-to-class map only "
     "(its table is keyed by flow id in this code base)",
     "Monitor sampling instants (0.25 + k) never coincide with arrivals or departures",
@@ -49,6 +49,9 @@ def plan(tier, seed):
             cfgs.append(dict(sched=kind, table=tabs[0], rate=(8000 if kind == "DRR" else 8), flows=[0, 1],
                              sizes=([1000, 2000] if kind == "DRR" else [1, 2]), N=3 if quick else 4,
                              gaps=["S", "N", 1, 2], order=0, map="id", mon=mon))
+        # a rate that is not a whole number (same float arithmetic in the reference), and for DRR a packet of more than two quanta
+        cfgs.append(dict(sched=kind, table=tabs[0], rate=(2500.5 if kind == "DRR" else 2.5), flows=[0, 1],
+                         sizes=([1000, 4000] if kind == "DRR" else [1, 2]), N=nfull, gaps="G3", order=0, map="id"))
         # several flows mapped onto one class
         if kind in ("WFQ", "VC", "DRR"):
             cfgs.append(dict(sched=kind, table=[[0, 2]], rate=(8000 if kind == "DRR" else 8), flows=[0, 1],
